@@ -28,6 +28,7 @@ SCAN = NRS + "::update_records_from_an_existing_store"
 
 
 def run(R):
+    wipe_rules(R)
     F = R.F
     # (1) shipped configuration
     with open(os.path.join(facts.REPO, "ant-node", "Cargo.toml"), "rb") as fh:
@@ -238,3 +239,47 @@ def run(R):
         if bad:
             R.viol("C02.cipher", "cipher-nondeterministic", "cipher derivation uses %s" % bad[0]["ncallee"], ds, bad[0]["line"])
         R.inst("C02.cipher", "K1 forbidden-callee", "cipher key derivation from the seed is deterministic (no rand/time source)", len(ds.calls), not bad)
+
+
+WIPE = "ant_networking::driver::check_and_wipe_storage_dir_if_necessary"
+
+
+def wipe_rules(R):
+    """The start-up wipe: the record directory is removed, and the version marker that decides it is rewritten, only when the
+    stored marker differs from this build's version.  (A marker rewritten on every start can be left empty by a start that is
+    interrupted or hits a full disk, and the next start then wipes every completed record.)"""
+    from rules import PL
+    F = R.F
+    wb = R.body("C02.wipe", WIPE)
+    if wb is None:
+        return
+    prep(wb)
+    cur = lambda b: Taint(b).closure(PL(b, 2))   # cur_version_str (root_dir, storage_dir_path, cur_version_str)
+    def prev(b):
+        # the string the marker file was read into
+        ta = Taint(b, through="all")
+        rd = [blk for blk in b.blocks if blk["term"]["k"] == "call" and callee_matches(blk["term"], ["*std::io::Read>::read_to_string", "std::fs::read_to_string", "std::io::Read::read_to_string"])]
+        seeds = set()
+        for blk in rd:
+            t = blk["term"]
+            seeds.add(t["d"][0])
+            for a in t["args"]:
+                l = op_local(a)
+                if l is not None and "&mut" in b.locals.get(str(l), ""):
+                    seeds |= ta.ref_of.get(l, set())
+        return Taint(b).closure(seeds)
+    differ = CmpGuard(cur, prev, "Ne", "this build's version != the version marker on disk")
+    R.gate("C02.wipe.gate", wb, CallSink("std::fs::remove_dir_all", "std::fs::remove_dir", "std::fs::remove_file"), [[differ]],
+           descr="the record directory is wiped only on a version mismatch")
+    absent = CallGuard(["std::fs::File::open"], ("Err",), "the marker file could not be opened (first start)")
+    R.gate("C02.wipe.marker", wb, CallSink("std::fs::write", "std::fs::OpenOptions::open", "std::io::Write::write_all", "*std::io::Write>::write_all", "std::fs::File::create"),
+           [[differ, absent]], descr="the version marker is (re)written only on a mismatch or when it does not exist yet")
+    # the path wiped is the storage directory parameter, the marker lives outside it (under root_dir)
+    ta = Taint(wb, through="all")
+    rms = [b for b in wb.blocks if b["term"]["k"] == "call" and not b["cleanup"] and callee_matches(b["term"], ["std::fs::remove_dir_all"])]
+    okp = bool(rms) and all(op_local(b["term"]["args"][0]) in Taint(wb).closure(PL(wb, 1)) for b in rms)
+    if not okp:
+        R.viol("C02.wipe.path", "wipe-path", "the directory wiped is not the storage_dir_path argument", wb, wb.lines[0])
+    R.inst("C02.wipe.path", "K6 flows-to", "remove_dir_all(storage_dir_path)", len(rms), okp)
+    R.who_may_call("C02.wipe.who", ["std::fs::remove_dir_all"], [WIPE], floor=1, ignore_crates=tuple(c for c in {b.crate for b in F.bodies.values()} if c != "ant_networking"),
+                   descr="remove_dir_all in ant_networking only in the version-mismatch wipe")
